@@ -14,6 +14,7 @@ EXPLANATION = (
     "leaves its loop. R07.4 while the `threads` mutex guard is live no blocking callee other than the rendezvous sends "
     "is called. Necessary, not sufficient: liveness over all schedules is not decided."
     ' R07.5 the wake-up targets the caller of this broadcast: the shared block carries exactly one Thread handle, initialised with thread::current() by the constructor that the broadcasting thread itself calls, and every unpark in the worker is applied to (a clone of) that field of the task just received and to nothing else.')
+EXPLANATION += (" R07.7 nothing on the pool's task path has a non-unwinding ABI (a panicking task unwinds to its thread's catch_unwind).")
 NOT_DECIDED = ["absence of deadlock / lost wake-up over all schedules and histories (liveness over interleavings; model-checking family)"]
 TRUSTED = ["park/unpark token semantics; a rendezvous send returns once the receiver took the value"]
 
